@@ -39,49 +39,31 @@ extern int mpt_queue_crop(MPT_STRUCT(queue) *queue, size_t pos, size_t len)
 		queue->off += len;
 		return 0;
 	}
-	/* start in lower part */
-	if (pos < low) {
-		low -= pos;
-		base += pos;
-	}
-	/* start position out of range */
-	else if ((pos -= low) > high) {
-		return MPT_ERROR(BadArgument);
-	}
-	/* process high part only */
-	else {
-		base = ((uint8_t *) queue->base) + pos;
-		low = high - pos;
-		high = 0;
-	}
+	/* range outside of data */
 	post = low + high;
-	
-	if (post < len) {
+	if (pos > post || len > (post - pos)) {
 		return MPT_ERROR(BadArgument);
 	}
-	/* need to move post data */
-	post -= len;
-	
-	/* move data over segments */
-	if (high) {
-		uint8_t *src = ((uint8_t *) queue->base) + len - low;
-		if (low <= post) {
-			memcpy(base, src, post);
-			ret = 1;
+	/* move data behind range, parts limited by wrap of source and target */
+	post -= pos + len;
+	base = queue->base;
+	low  = queue->off + pos;
+	high = low + len;
+	while (post) {
+		size_t part = post;
+		low  %= queue->max;
+		high %= queue->max;
+		if (part > (queue->max - low)) {
+			part = queue->max - low;
 		}
-		else {
-			/* limit moved data size */
-			memcpy(base, src, low);
-			post -= low;
-			base = queue->base;
-			/* start at offset 'low' in post data ((len - low) + low) */
-			(void) memmove(base, base+len, post);
-			ret = 3;
+		if (part > (queue->max - high)) {
+			part = queue->max - high;
 		}
-	}
-	/* linear data move */
-	else if (post) {
-		(void) memmove(base, base+len, post);
+		(void) memmove(base + low, base + high, part);
+		low  += part;
+		high += part;
+		post -= part;
+		ret = 1;
 	}
 	queue->len -= len;
 	
